@@ -1138,3 +1138,80 @@ Example ex_post_shm_ok :
   | _ => False
   end.
 Proof. vm_compute. repeat split; reflexivity. Qed.
+
+(* ------------------------------------------------------------------ the recorded date over the life of one process *)
+(* the date is a function of the local day number (t + 8 h) / 86400 of the stamp time alone ... *)
+Lemma cdatemd_same_local_day t t' : (t + TZ_OFFSET) / 86400 = (t' + TZ_OFFSET) / 86400 -> cdatemd t = cdatemd t'.
+Proof. intros H. rewrite !cdatemd_day, H. reflexivity. Qed.
+
+(* ... and consecutive local days never share it (sweep over every pair of consecutive days of the range) *)
+Definition md_next_ok (i : Z) : bool := negb (bytes_eqb (md_of_day (11574 + i)) (md_of_day (11574 + i + 1))).
+
+Lemma md_next_sweep : forallb md_next_ok (zrange (Z.to_nat 13290)) = true.
+Proof. vm_compute. reflexivity. Qed.
+
+Lemma cdatemd_next_local_day t t' : 1000000000 <= t < 2147483648 -> 1000000000 <= t' < 2147483648 ->
+  (t' + TZ_OFFSET) / 86400 = (t + TZ_OFFSET) / 86400 + 1 -> cdatemd t' <> cdatemd t.
+Proof.
+  intros H H' N. rewrite !cdatemd_day, N. unfold TZ_OFFSET. set (d := (t + 28800) / 86400).
+  assert (Hd : 0 <= d - 11574 < Z.of_nat (Z.to_nat 13290)) by (rewrite Z2Nat.id by lia; subst d; lia).
+  pose proof (sweep md_next_ok _ md_next_sweep _ Hd) as S. unfold md_next_ok in S.
+  replace (11574 + (d - 11574)) with d in S by lia.
+  intros E. rewrite E, bytes_eqb_refl in S. discriminate S.
+Qed.
+
+Lemma date_is_local_day t t' : 1000000000 <= t < 2147483648 -> 1000000000 <= t' < 2147483648 ->
+  ((t + TZ_OFFSET) / 86400 = (t' + TZ_OFFSET) / 86400 -> cdatemd t = cdatemd t') /\
+  ((t' + TZ_OFFSET) / 86400 = (t + TZ_OFFSET) / 86400 + 1 -> cdatemd t' <> cdatemd t) /\
+  ((t + 1 + TZ_OFFSET) mod 86400 = 0 -> t' = t + 1 -> cdatemd t' <> cdatemd t) /\
+  length (cdatemd t) = 5%nat /\ date_field_of t = cdatemd t ++ [0].
+Proof.
+  intros H H'. split; [apply cdatemd_same_local_day|]. split; [apply cdatemd_next_local_day; assumption|].
+  split.
+  - intros M E. apply cdatemd_next_local_day; try assumption. subst t'. unfold TZ_OFFSET in *. lia.
+  - pose proof (cdatemd_length t H) as L. split; [exact L|].
+    unfold date_field_of, fixlen. rewrite L. rewrite firstn_all2 by (rewrite L; repeat constructor). reflexivity.
+Qed.
+
+(* a history of stamp times asked of one process: the k-th answer depends on the k-th time only *)
+Lemma stamp_dates_history_free pre t post_ :
+  length (stamp_dates (pre ++ t :: post_)) = length (pre ++ t :: post_) /\
+  nth (length pre) (stamp_dates (pre ++ t :: post_)) [] = date_field_of t.
+Proof.
+  unfold stamp_dates. rewrite map_length. split; [reflexivity|].
+  rewrite map_app. rewrite app_nth2 by (rewrite map_length; lia). rewrite map_length, Nat.sub_diag. reflexivity.
+Qed.
+
+(* one post of a history: the entry's date is the date of the time in the entry's own name *)
+Definition date_ok (o : outcome) : Prop :=
+  exists t2 r2, 1000000000 <= t2 < 2147483648 /\ 0 <= r2 < 4096 /\ o_fn o = mk_name 77 t2 r2 /\
+    firstn 6 (skipn 48 (o_entry o)) = date_field_of t2.
+
+Lemma post_date st q st' o : in_range q -> post st q = Ok (st', o) -> date_ok o.
+Proof.
+  intros R H. unfold post in H.
+  destruct (post_on (allowed_by_role (q_user q) (nth (Z.to_nat (q_user q)) (s_users st) dflt_user) (nth (Z.to_nat (q_board q)) (s_boards st) dflt_board))
+                    (nth (Z.to_nat (q_user q)) (s_users st) dflt_user) (nth (Z.to_nat (q_board q)) (s_boards st) dflt_board) q) as [[[u' b'] o']| |] eqn:E;
+    try discriminate H.
+  inversion H; subst.
+  destruct (header_fields _ _ _ _ _ _ _ R E) as (t2 & r2 & T & Rr & N & F). cbv zeta in F.
+  destruct F as (_ & _ & _ & F & _).
+  exists t2, r2. split; [exact T|]. split; [exact Rr|]. split; [exact N|]. exact F.
+Qed.
+
+Lemma sequence_dates qs : forall st st' os, Forall in_range qs -> post_seq st qs = Ok (st', os) -> Forall date_ok os.
+Proof.
+  induction qs as [|q qs IH]; intros st st' os R H; cbn [post_seq] in H.
+  - inversion H; subst. constructor.
+  - inversion R as [|? ? Rq Rqs]; subst.
+    destruct (post st q) as [[st1 o]| |] eqn:E1; try discriminate H.
+    destruct (post_seq st1 qs) as [[st2 os2]| |] eqn:E2; try discriminate H.
+    inversion H; subst. constructor; [exact (post_date _ _ _ _ Rq E1) | exact (IH _ _ _ Rqs E2)].
+Qed.
+
+(* non-vacuity: a process that is asked across a local midnight inside one UTC day (15:59:59 and 16:00:00 UTC of
+   2026-10-01), across new year, and back again *)
+Example stamp_dates_example :
+  stamp_dates [1790870399; 1790870400; 1798732799; 1798732800; 1790870399] =
+  [[49; 48; 47; 48; 49; 0]; [49; 48; 47; 48; 50; 0]; [49; 50; 47; 51; 49; 0]; [32; 49; 47; 48; 49; 0]; [49; 48; 47; 48; 49; 0]].
+Proof. vm_compute. reflexivity. Qed.
